@@ -145,19 +145,19 @@ theorem farslot_eq (c : CState) : farslot c = getTarget c {} := rfl
 /-- `janetc_def` -/
 theorem def_core (hP : P.length < 65536)
     (hK : ∀ i, i < P.length → (p.defs.getD f0.defIdx default).consts.getD i .nil = litOf V (P.getD i .nil))
-    (G : String → Prop) (fuel : Nat) (IH : CorrectAt p f0 rest V P G fuel) (x : String) (ve : Expr) (hGx : ¬ G x) (hTv : TS G ve)
+    (G : String → Prop) (T : Expr → Prop) (w : Bool) (fuel : Nat) (IH : CorrectAt p f0 rest V P G T w fuel) (x : String) (ve : Expr) (hGx : ¬ G x) (hTv : T ve)
     (c c' : CState) (slot : JSlot) (sc : Scope) (rs : List Scope) (pool : List KConst) (ps : List (List KConst))
     (n2 : Nat) (pos : Pos) (env env1 : Env) (s s1 : SS) (v : Value)
     (hs : c.scopes = sc :: rs) (hp : c.pools = pool :: ps) (hl : c.lim ≤ 240) (htop : sc.top = false)
     (hc : cDef (cValue fuel) x ve c = some (slot, c')) (hsem : eval n2 pos env ve s = .ok (v, env1) s1)
     (hE : EnvS G c.scopes env s.boxes.size sc.ra) :
-    Correct2 p f0 rest V P G c c' slot sc rs pool ps env ((x, s1.boxes.size) :: env1) s { s1 with boxes := s1.boxes.push v } v := by
+    Correct2 p f0 rest V P G false c c' slot sc rs pool ps env ((x, s1.boxes.size) :: env1) s { s1 with boxes := s1.boxes.push v } v := by
   have hct : curTop c = false := by simp [curTop, hs, htop]
   simp only [cDef, hct, Bool.false_eq_true, if_false, Option.bind_eq_bind, Option.bind_eq_some_iff, Prod.exists, Option.pure_def,
     Option.some.injEq, Prod.mk.injEq] at hc
   obtain ⟨r, c1, hv, c2, hnl, hslot, hc2⟩ := hc
   subst hslot hc2
-  obtain ⟨ra1, ns1, more1, seg1, segm1, hc1, pv1, mono1, max1, sok1, bx1, es1, vm1⟩ :=
+  obtain ⟨ra1, ns1, more1, seg1, segm1, hc1, pv1, mono1, max1, sok1, bx1, es1, nf1, vm1⟩ :=
     IH ve {} c c1 r sc rs pool ps n2 pos env env1 s s1 v rfl rfl hs hp hl htop hTv hv hsem hE
   have hs1 : c1.scopes = { sc with ra := ra1, syms := sc.syms ++ ns1 } :: rs := by rw [hc1]
   have hp1 : c1.pools = (pool ++ more1) :: ps := by rw [hc1]
@@ -182,7 +182,26 @@ theorem def_core (hP : P.length < 65536)
       rw [hc2]; simp only [nameslot, hs1] <;> rfl
     have hsc2 : c2.scopes = ({ ({ sc with syms := sc.syms ++ ns1 } : Scope) with ra := ra1, syms := ({ sc with syms := sc.syms ++ ns1 } : Scope).syms ++ [pair] } :: rs) := hs2
     have hpk : pair.slot.k = .loc r0 := hk0
-    refine ⟨ra1, ns1 ++ [pair], more1, seg1, segm1, ?_, ?_, mono1, max1, ?_, hbx, ?_, ?_⟩
+    have nfA : NameFrame sc c.scopes c2.scopes r := by
+      refine ⟨fun d hd hno y sl u l hy hk => ?_, nf1.2⟩
+      rw [hsc2, lk_def _ rs ra1 pair rfl y] at hy
+      cases hb : (pair.name == y) with
+      | true =>
+        rw [hb] at hy
+        simp only [if_true, Option.some.injEq, Prod.mk.injEq] at hy
+        obtain ⟨e1, _, _⟩ := hy
+        subst e1
+        rw [hpk] at hk
+        injection hk with e
+        subst e
+        exact nf1.2 r0 hnm hk0 hd hno
+      | false =>
+        rw [hb] at hy
+        simp only [Bool.false_eq_true, if_false] at hy
+        have := nf1.1 d hd hno
+        rw [hs1] at this
+        exact this y sl u l hy hk
+    refine ⟨ra1, ns1 ++ [pair], more1, seg1, segm1, ?_, ?_, mono1, max1, ?_, hbx, ?_, nfA, ?_⟩
     · rw [hc2]; simp only [nameslot, hs1]
       rw [hc1]; simp [List.append_assoc, pair]
     · have hv2 : c2.vals = c1.vals := by rw [hc2]; simp only [nameslot, hs1]
@@ -197,11 +216,11 @@ theorem def_core (hP : P.length < 65536)
       have hv2 : c2.vals = c1.vals := by rw [hc2]; simp only [nameslot, hs1]
       rw [hv2] at hV
       obtain ⟨regs1, rch1, sz1, pr1, sv1, ed1⟩ := vm1 k hkw hka hD hcode hpre hV hsz
-      refine ⟨regs1, rch1, sz1, pr1, sv1, ?_⟩
+      refine ⟨regs1, rch1, sz1, pr1, fun _ => sv1 rfl, ?_⟩
       rw [hsc2]
       rw [hs1] at ed1
       have hval : regs1.getD r0 .nil = v := by
-        have := sv1
+        have := sv1 rfl
         simp only [slotVal, hk0] at this
         exact this
       exact def_envD G { sc with syms := sc.syms ++ ns1 } rs env1 s1 ra1 ra1 pair r0 regs1 regs1 v es1 ed1 rfl hpk (fun _ _ => rfl) hval
@@ -239,7 +258,28 @@ theorem def_core (hP : P.length < 65536)
       · exact h0
     have hdT : raT.alloc d' = true := by rw [b5' d']; simp
     have hv2 : c2.vals = c1.vals := by rw [hc2]; simp only [nameslot, hs1b]; rw [hc1b, hc1a]
-    refine ⟨raT, ns1 ++ [pair], more1 ++ moreC, seg1 ++ segC, segm1 ++ segmC, ?_, ?_, fun r0 h0 => hsupT r0 (mono1 r0 h0), by omega, ?_, hbx, ?_, ?_⟩
+    have nfC : NameFrame sc c.scopes c2.scopes r := by
+      refine ⟨fun d hd hno y sl u l hy hk => ?_, nf1.2⟩
+      rw [hsc2, lk_def _ rs raT pair rfl y] at hy
+      cases hb : (pair.name == y) with
+      | true =>
+        rw [hb] at hy
+        simp only [if_true, Option.some.injEq, Prod.mk.injEq] at hy
+        obtain ⟨e1, _, _⟩ := hy
+        subst e1
+        rw [hpk] at hk
+        injection hk with e
+        subst e
+        have := mono1 d' hd
+        rw [b1'] at this
+        exact Bool.noConfusion this
+      | false =>
+        rw [hb] at hy
+        simp only [Bool.false_eq_true, if_false] at hy
+        have := nf1.1 d hd hno
+        rw [hs1] at this
+        exact this y sl u l hy hk
+    refine ⟨raT, ns1 ++ [pair], more1 ++ moreC, seg1 ++ segC, segm1 ++ segmC, ?_, ?_, fun r0 h0 => hsupT r0 (mono1 r0 h0), by omega, ?_, hbx, ?_, nfC, ?_⟩
     · rw [hc2]; simp only [nameslot, hs1b]
       rw [hc1b, hc1a, hc1]; simp [List.append_assoc, pair]
     · rw [hv2]; exact pv1
@@ -280,7 +320,7 @@ theorem def_core (hP : P.length < 65536)
         intro r0 h0
         exact getD_set_ne _ _ _ _ (by intro e; rw [e] at h0; rw [b1'] at h0; exact Bool.noConfusion h0)
       have hval : (regs1.setIfInBounds d' (slotVal V regs1 r)).getD d' .nil = v := by
-        rw [getD_set_eq _ _ _ (by omega)]; exact sv1
+        rw [getD_set_eq _ _ _ (by omega)]; exact sv1 rfl
       refine ⟨regs1.setIfInBounds d' (slotVal V regs1 r), ?_, by simp [sz1], ?_, ?_, ?_⟩
       · have e : k.pc + (seg1 ++ segC).length = k.pc + seg1.length + segC.length := by
           simp [List.length_append]; omega
@@ -288,11 +328,12 @@ theorem def_core (hP : P.length < 65536)
         exact Reach.trans rch1 rchC
       · intro r0 h0
         rw [hsame r0 (mono1 r0 h0), pr1 r0 h0]
-      · rcases hsk with ⟨kc, hk⟩ | ⟨r0, hk, _⟩
-        · have := sv1
+      · intro _
+        rcases hsk with ⟨kc, hk⟩ | ⟨r0, hk, _⟩
+        · have := sv1 rfl
           simp only [slotVal, hk] at this ⊢
           exact this
-        · have := sv1
+        · have := sv1 rfl
           simp only [slotVal, hk] at this ⊢
           rw [getD_set_ne _ _ _ _ (hne r0 hk)]
           exact this
